@@ -87,8 +87,8 @@ func (f c03File) render() string {
 
 type c03Case struct {
 	Base       c03Tree   `json:"base"`
-	Commits    []c03Tree `json:"commits"`     // tree after every branch commit
-	Ops        []string  `json:"ops"`         // what each commit did (for humans)
+	Commits    []c03Tree `json:"commits"` // tree after every branch commit
+	Ops        []string  `json:"ops"`     // what each commit did (for humans)
 	BaseMoves  bool      `json:"base_branch_advances"`
 	MainCommit c03Tree   `json:"main_after,omitempty"`
 }
